@@ -19,7 +19,10 @@ EPOCH = 1_700_000_000.0
 class SimClock:
   """Float seconds; every reading advances `tick` unless frozen."""
 
-  def __init__(self, epoch=EPOCH, tick=0.001):
+  def __init__(self, epoch=EPOCH, tick=0.001, tz_offset=0.0):
+    # tz_offset: the simulated host's local time zone (seconds east of UTC). Naive "local now" readings
+    # (datetime.now(), time.localtime) are shifted by it; UTC readings are not.
+    self.tz_offset = float(tz_offset)
     self.now = float(epoch)
     self.tick = tick
     self.frozen = 0  # number of upcoming readings that do not advance
@@ -91,8 +94,12 @@ def _make_datetime_shim(clock):
     @classmethod
     def now(cls, tz=None):
       if tz is None:
-        return _dt.datetime.utcfromtimestamp(clock.read())
+        return _dt.datetime.utcfromtimestamp(clock.read() + clock.tz_offset)  # naive LOCAL time
       return _dt.datetime.fromtimestamp(clock.read(), tz)
+
+    @classmethod
+    def today(cls):
+      return cls.now()
 
   shim = types.SimpleNamespace()
   for k in dir(_dt):
